@@ -90,7 +90,10 @@ def run_history(case, fresh=False, workers=None):
     consts = case.get("constants", {})
     name = "c4"
     with core.scratch("xv-c04-") as root:
-        fn = crops.record(kind, None)
+        # (with 'uneven': every other setting takes 30 ms, so that workers
+        # finish the settings of a batch out of order)
+        fn = crops.record(kind, None,
+                          (0.03, 0) if case.get("uneven") else None)
         sown = []
         ckw = {}
         if case.get("ctor_shuffle") is not None:
@@ -212,7 +215,9 @@ def run_history(case, fresh=False, workers=None):
                         if step.get("np_ids"):
                             import numpy as np
                             i = np.int64(i)
-                        x.grow(i, crop=c, verbosity=0, **opts)
+                        x.grow(i, crop=c,
+                               verbosity=1 if case.get("uneven") else 0,
+                               **opts)
                 elif how == "grow-in-dir":
                     cwd = os.getcwd()
                     os.chdir(c.location)
@@ -460,6 +465,8 @@ def parallel_history(draw):
                             ["b", [0.5, 1.5, 2.5, 3.5, 4.5, 5.5, 6.5]]]
     for s in case["plan"]:
         s["parallel"] = True
+    # settings of uneven cost, grown by a job that reports its progress
+    case["uneven"] = (not big) and draw(st.sampled_from([False, True]))
     if case["input"] == "grid" and draw(st.sampled_from([False, False,
                                                          True])):
         # an argument named like a parameter of the pool's own submit method
